@@ -116,8 +116,8 @@ func allScalars() []*tnode {
 // The reduced element alphabet of the composite types.
 var elemAlphabet = []string{"int", "bigint", "text", "varint", "boolean", "uuid", "timestamp", "date", "duration", "inet"}
 
-func tList(e *tnode) *tnode  { return &tnode{typ: gocql.TypeList, name: "list", kids: []*tnode{e}} }
-func tSet(e *tnode) *tnode   { return &tnode{typ: gocql.TypeSet, name: "set", kids: []*tnode{e}} }
+func tList(e *tnode) *tnode   { return &tnode{typ: gocql.TypeList, name: "list", kids: []*tnode{e}} }
+func tSet(e *tnode) *tnode    { return &tnode{typ: gocql.TypeSet, name: "set", kids: []*tnode{e}} }
 func tMap(k, v *tnode) *tnode { return &tnode{typ: gocql.TypeMap, name: "map", kids: []*tnode{k, v}} }
 func tTuple(es ...*tnode) *tnode {
 	return &tnode{typ: gocql.TypeTuple, name: "tuple", kids: es}
